@@ -38,6 +38,19 @@ fn type_check_internal(ast: &ast::Module, context: &mut Context) -> TyperResult<
     }
 
     assert!(context.is_at_root());
+
+    // Every function that is called has to have a definition somewhere in the module
+    if let Some((id, location)) = context.find_call_to_undefined_function() {
+        let name = context
+            .module
+            .function_registry
+            .get_function_name_definition(id)
+            .name
+            .node
+            .clone();
+        return Err(TyperError::FunctionNotDefined(name, location));
+    }
+
     Ok(())
 }
 
